@@ -19,6 +19,9 @@ type failover interface {
 	// witnesses in order to trigger a failover to a new leader.
 	Quorum() int
 
+	// Eligible indicates if the witness counts towards the quorum.
+	Eligible(witness string) bool
+
 	// Timeout returns the time elapsed before expiring a failover. Each time a
 	// report is made, the failover's timeout is reset. Upon timing out, the
 	// timer for the leader failover is removed.
@@ -59,7 +62,15 @@ func (f *failoverStatus) report(ctx context.Context, witness string) *status.Sta
 	f.mu.Lock()
 
 	f.witnesses[witness] = struct{}{}
-	leaderFailed := len(f.witnesses) > f.failover.Quorum()
+	// Only count witnesses that are currently eligible, e.g. a replica which
+	// is no longer in the ISR has no say in the partition leader failing.
+	count := 0
+	for w := range f.witnesses {
+		if f.failover.Eligible(w) {
+			count++
+		}
+	}
+	leaderFailed := count > f.failover.Quorum()
 
 	if leaderFailed {
 		if f.timer != nil {
@@ -123,6 +134,12 @@ func (p *partitionFailover) Quorum() int {
 }
 
 // Timeout returns the configured ReplicaMaxLeaderTimeout.
+// Eligible indicates if the witness is an in-sync follower of the partition.
+func (p *partitionFailover) Eligible(witness string) bool {
+	leader, _ := p.partition.GetLeader()
+	return witness != leader && p.partition.inISR(witness)
+}
+
 func (p *partitionFailover) Timeout() time.Duration {
 	return p.timeout
 }
@@ -164,6 +181,11 @@ func (g *groupFailover) Quorum() int {
 }
 
 // Timeout returns the configured GroupsCoordinatorTimeout.
+// Eligible indicates if the witness is a member of the consumer group.
+func (g *groupFailover) Eligible(witness string) bool {
+	return g.group.IsMember(witness)
+}
+
 func (g *groupFailover) Timeout() time.Duration {
 	return g.timeout
 }
